@@ -94,10 +94,13 @@ class C16(runner.Check):
 		r = S("workload")
 		if leg in ("meme", "meme_trunc"):
 			n = r.randint(1, 6)
+			if leg == "meme" and r.chance(0.004):
+				n = r.randint(2200, 3200)        # a whole motif collection (> 1 MiB)
 			motifs = []
 			for i in range(n):
 				nm = "M%d" % i + r.choice(["", " alt%d" % i, " two words"])
-				motifs.append({"name": nm, "pwm": gen_probs(r, r.randint(1, 12))})
+				motifs.append({"name": nm, "pwm": gen_probs(r, r.randint(1, 12) if n < 100
+					else r.randint(6, 10))})
 			lo = {"newline": r.choice(["\n", "\n", "\r\n"]),
 				"blank_after_matrix": r.choice([0, 1, 1, 3]),
 				"url": r.chance(0.5),
@@ -110,7 +113,10 @@ class C16(runner.Check):
 			io_plan = {"short_reads": f.chance(0.7), "max_read": f.choice([1, 3, 16, 64]),
 				"seed": f.subseed(), "buffer": f.choice([8192, 16, 64])}
 			case = {"leg": leg, "seed": seed, "motifs": motifs, "layout": lo,
-				"io": io_plan, "n_motifs": r.choice([None, None, None, r.randint(1, n)])}
+				"io": io_plan, "n_motifs": r.choice([None, None, None, r.randint(1, n)])
+					if n < 100 else None}
+			if n >= 100:
+				io_plan["short_reads"] = False
 			if leg == "meme_trunc":
 				case["trunc"] = {"kind": f.wchoice(["after_row", "after_row_nl", "line",
 					"byte"], [4, 3, 3, 2]), "pick": f.random()}
@@ -134,13 +140,14 @@ class C16(runner.Check):
 				nm += "x"
 			chroms.append({"name": nm, "seq": "".join(s)})
 		neg = r.chance(0.2)
+		bigc = r.chance(0.15)          # genome-scale coverage: cumulative counts > 2**24
 
 		def track():
 			t = {}
 			for c in chroms:
 				L = len(c["seq"])
 				v = [float(r.choice([0, 0, 1, 2, 3, 0.5, 7] + ([-1, -2] if neg else [])))
-					for _ in range(L)]
+					* (65536.0 if bigc else 1.0) for _ in range(L)]
 				for _ in range(r.randint(0, 2)):
 					p = r.randint(0, L - 1)
 					for k in range(p, min(L, p + r.randint(1, 20))):
@@ -203,6 +210,10 @@ class C16(runner.Check):
 			kw["max_counts"] = r.choice([0, 0, 5.25, 20.25, 60.25, 200.25])
 		if signals and len(signals) > 1:
 			kw["target_idx"] = r.randint(0, len(signals) - 1)
+		if bigc:
+			for k_ in ("min_counts", "max_counts"):
+				if kw[k_]:
+					kw[k_] = kw[k_] * 65536.0
 		b = S("schedule")
 		combos = []
 		for _ in range(r.randint(2, 4)):
